@@ -286,6 +286,9 @@ def run(ctx):
     ctx.count("functions_scanned", sum(1 for _ in repo.all_functions()))
 
     own_rule(ctx)
+    from . import cachecoh
+    cachecoh.rule(ctx, "C10.stale", ("aspire.flows", "aspire.samples", "aspire.transforms", "aspire.samplers"),
+                  "densities computed through it (the log_q handed back with fresh draws, a cached Jacobian) no longer belong to the coordinates they are stored with")
 
 
 def own_rule(ctx, only_module: str | None = None, rule: str = "C10.own"):
@@ -342,6 +345,8 @@ MUTANTS += [
     M("enlargement resamples at the wrong temperature", "src/aspire/samplers/smc/base.py", "final_samples = samples.resample(\n                1.0, n_samples=n_final_samples, rng=self.rng\n            )", "final_samples = samples.resample(\n                beta, n_samples=n_final_samples, rng=self.rng\n            )", "C10.final"),
 ]
 MUTANTS += [
+    M("jax flow keeps a compiled log_prob of the flow it had before fitting", "src/aspire/flows/jax/flows.py", "log_prob = self._flow.log_prob(x_prime)\n        x, log_abs_det_jacobian = self.inverse_rescale(x_prime)",
+      "if getattr(self, \"_lp\", None) is None:\n            self._lp = self._flow.log_prob\n        log_prob = self._lp(x_prime)\n        x, log_abs_det_jacobian = self.inverse_rescale(x_prime)", "C10.stale"),
     M("forward transform writes into its argument", _T, "x = copy_array(x, xp=self.xp)\n        x = self.xp.atleast_2d(x)\n        log_abs_det_jacobian = self.xp.zeros(len(x), device=self.device)\n        if self.periodic_parameters:",
       "x = self.xp.atleast_2d(x)\n        log_abs_det_jacobian = self.xp.zeros(len(x), device=self.device)\n        if self.periodic_parameters:", "C10.own"),
     M("inverse transform writes into its argument", _T, "x = copy_array(x, xp=self.xp)\n        x = self.xp.atleast_2d(x)\n        log_abs_det_jacobian = self.xp.zeros(len(x), device=self.device)\n        if self.affine_transform:",
